@@ -21,7 +21,7 @@ RULE = ("Generated runs of fit(): tiny positive / complex / density model, start
         "ObservableStatistics accessors), the CSV contents, the logger messages, the set of files written and what each loads back "
         "to must agree with the record at exactly the epochs of the run that are multiples of the period. Non-trivial = two "
         "periodic callbacks with different periods, or a range not starting at a multiple of a period, or a run cut short.")
-RULE_EXT = ('Extended as built: numpy integer indices, stop requested at an epoch end or inside a batch, a second run over the same / a fixed / the same range after clear_history, inspection after clear, up to 14 epochs, verbose evaluators, generator weighted toward several saves.')
+RULE_EXT = ('Extended as built: numpy integer indices, stop requested at an epoch end or inside a batch, a second run over the same / a fixed / the same range after clear_history, inspection after clear, up to 14 epochs, verbose evaluators, generator weighted toward several saves. Round 6: the last / past_values records a caller took from an evaluator survive clear_history() and a second run.')
 RULE = RULE + " " + RULE_EXT
 ASSUMPTIONS = ["observable statistics are compared with System.statistics evaluated by the recording callback under the same torch seed (their "
                "arithmetic is C13's business)", "files live in a per-case temporary directory"]
@@ -241,6 +241,14 @@ def check(c):
             want = [f"E{e}|T" for e in S] if c["logger"]["custom"] else [f"Epoch {e}: " + str({"tag": "T"}) for e in S]
             require(msgs == want, "logger:messages", f"Logger(period {c['logger']['period']}) emitted {msgs}, expected {want}")
         if c["second_run"] and (mes or oe is not None):
+            # what the caller took out of the evaluators after the first run (the public records themselves, not copies) stays what it was
+            import copy as _copy
+            kept = []
+            for ev_ in [m[3] for m in mes] + ([oe] if oe is not None else []):
+                for attr in ("last", "past_values"):
+                    obj = getattr(ev_, attr, None)
+                    if obj is not None:
+                        kept.append((type(ev_).__name__ + "." + attr, obj, _copy.deepcopy(obj)))
             for m in mes:
                 m[3].clear_history()
                 if c.get("inspect_after_clear", True):      # looking at the empty evaluator is itself a step of the history: not always taken
@@ -264,6 +272,8 @@ def check(c):
                 c["stop_at"] = c2
             verify_metrics(ran2, rows_before)
             verify_obs(ran2, rows_before)
+            for what_, obj, snap_ in kept:
+                require(obj == snap_, "records-kept-by-caller-changed", f"the {what_} record the caller kept from the first run was altered by clear_history() / the second run")
             labels.append("second_run")
     periods = list(c["metric_periods"]) + ([c["obs_period"]] if c["obs_period"] else []) + ([c["saver"]["period"]] if c["saver"] else []) + ([c["logger"]["period"]] if c["logger"] else [])
     nt = bool(periods) and bool(ran) and (len(set(periods)) >= 2 or any(c["se"] % p for p in periods) or cut)
